@@ -51,13 +51,18 @@ def spec(cols, label, heur, target_only):
     return req, allowed
 
 
+# the scope flag as the pipeline may receive it: the two documented texts, another spelling, a plain boolean. For the last two the
+# statement does not say which mode is meant - but the rank graph must be that of ONE of the two modes, never a mixture
+SPELL = {False: 'False', True: 'True', 'true': 'true', 'bool': True}
+
+
 def drive(cr, cols, label, heur, target_only, cap, fresh=True, ncpus=1):
     import pandas as pd
     if fresh:
         PL.fresh_state()
         cr.GLOBAL_PRIOR_COMB_COUNTS.clear()
     df = pd.DataFrame({c: ['u', 'v', 'u'] if i % 2 else ['p', 'p', 'q'] for i, c in enumerate(cols)})
-    args = types.SimpleNamespace(heuristic=heur, label_column=label, target_ranking_only='True' if target_only else 'False', combination_number_upper_bound=cap,
+    args = types.SimpleNamespace(heuristic=heur, label_column=label, target_ranking_only=SPELL[target_only], combination_number_upper_bound=cap,
                                  reference_model_JSON='', mi_stratified_sampling_ratio=1.0)
     saved = cr.get_importances_estimate_pairwise
     cr.get_importances_estimate_pairwise = lambda comb, ref, a, tmp_df: (comb[0], comb[1], token(comb[0], comb[1]))
@@ -69,6 +74,9 @@ def drive(cr, cols, label, heur, target_only, cap, fresh=True, ncpus=1):
 
 
 def check(trip, cols, label, heur, target_only, cap):
+    if target_only not in (True, False):
+        a, b = check(trip, cols, label, heur, True, cap), check(trip, cols, label, heur, False, cap)
+        return [] if (not a or not b) else [f'scope flag {SPELL[target_only]!r}: neither the target-only graph ({a[0]}) nor the pairwise graph ({b[0]})']
     req, allowed = spec(cols, label, heur, target_only)
     probs = []
     if any(a not in cols or b not in cols for a, b, s in trip):
@@ -137,7 +145,8 @@ def run_job(job):
     def setup(ctx):
         st['lpos'] = z3.Int('lpos')
         st['heur'] = z3.Int('heur')
-        st['to'] = z3.Bool('target_only')
+        st['to'] = z3.Int('target_only')
+        ctx.assume(st['to'] >= 0, st['to'] <= 3)
         st['cap'] = z3.Int('cap')
         st['rel'] = [z3.Int(f'rel{i}') for i in range(m - 1)]
         for v in st['rel']:
@@ -151,7 +160,7 @@ def run_job(job):
     def body(ctx, out):
         lpos = int(SInt(st['lpos'], 0, m - 1))
         heur = HEUR[int(SInt(st['heur'], 0, len(HEUR) - 1))]
-        to = bool(symx.SBool(st['to']))
+        to = [False, True, 'true', 'bool'][int(SInt(st['to'], 0, 3))]
         rel = [int(SInt(r, 0, 2)) for r in st['rel']]
         ncpus = int(SInt(st['ncpus'], 1, 3))
         cap = int(SInt(st['cap'], 0, maxcap))
